@@ -759,7 +759,7 @@ func runBounded(pc *PropCfg, prop, tier, repo, verif string, skip bool) []map[st
 		ovb, _ := json.Marshal(ov)
 		ovFile := filepath.Join(dir, "overlay.json")
 		os.WriteFile(ovFile, ovb, 0o644)
-		cmd := exec.Command("go", "test", "-overlay", ovFile, "-vet=off", "-count=1", "-timeout", "600s", "-v", "-run", "TestVerifBounded", ".")
+		cmd := exec.Command("go", "test", "-overlay", ovFile, "-vet=off", "-count=1", "-timeout", "300s", "-v", "-run", "TestVerifBounded", ".")
 		cmd.Dir = pkgDir
 		cmd.Env = append(os.Environ(), "GOFLAGS=-mod=mod", "GOPROXY=off", "GOSUMDB=off", "GOTOOLCHAIN=local", fmt.Sprintf("VERIF_BOUND=%d", bound))
 		t0 := time.Now()
